@@ -739,6 +739,47 @@ def codec_binding(ctx, prog):
     A.require('encode_b64_json/encode_b64-of-the-json-bytes', paths, r_ej, replay=RB)
 
 
+def alg_names(ctx, prog):
+    """`JwsAlgorithm::name()` is what a key's pinned `alg` is compared with (`check_alg(alg.name())`): for every variant it is the
+    registered name of *that* variant (RFC 7518 section 3.1, RFC 8037, RFC 8812) - the table below is written from the RFCs."""
+    from replay import run_replay
+    name = 'JwsAlgorithm::name/registered-name-of-each-variant'
+    rep = {'scenario': 'alg_names'}
+    tab = prog.enums.get('JwsAlgorithm')
+    fs = [f for f in prog.find(r'jws::algorithm::<impl at [^>]*>::name$')]
+    if not tab or len(fs) != 1:
+        ctx.add(Ob(name, 'M', INCONCLUSIVE, detail='JwsAlgorithm / name() not found'))
+        return
+    want = {v: ('none' if v == 'NONE' else v) for v in tab}
+    A = Auditor(ctx, prog)
+    try:
+        paths, ex = A.paths(fs[0])
+        bad = None
+        seen = set()
+        for p in paths:
+            if p.kind != 'return':
+                bad = 'panic ' + p.msg
+                break
+            t = strip(p.term())
+            d = ex.discr_var(('leaf', 'self'))
+            vs = [v for v, i in tab.items() if p.implies(d == z3.BitVecVal(i, 64))]
+            if len(vs) != 1 or not (isinstance(t, tuple) and t[0] == 'const' and isinstance(t[1], (bytes, bytearray))):
+                raise Refuse('path of name() not attributable to one variant / not a literal: %s' % term_str(t)[:80])
+            seen.add(vs[0])
+            if bytes(t[1]).decode('ascii', 'replace') != want[vs[0]]:
+                bad = 'name() of %s is %r' % (vs[0], bytes(t[1]).decode('ascii', 'replace'))
+                break
+        if not bad and seen != set(tab):
+            raise Refuse('variants without a path: %s' % sorted(set(tab) - seen))
+    except Refuse as e:
+        bad = 'name() is not a per-variant literal (%s)' % str(e)[:160]
+    if not bad:
+        ctx.add(Ob(name, 'M', HELD, queries=len(tab), sample='%d variants, each returns its registered name' % len(tab)))
+        return
+    res = run_replay(rep)
+    ctx.add(Ob(name, 'M', VIOLATED if res.get('reproduced') else INCONCLUSIVE, detail='%s | native: %s' % (bad, res.get('detail', '')[:300]), replay=rep, cex={'path': bad}))
+
+
 def main(ctx):
     prog, info = load(CRATES)
     ctx.extra['mir'] = info
@@ -748,6 +789,7 @@ def main(ctx):
     ctx.assumptions.append('callees not inlined are uninterpreted functions of their arguments; pure callees are functionally consistent')
     guarded(ctx, 'jws binding audit', 'M', lambda: run(ctx, prog))
     guarded(ctx, 'base64url codec binding', 'M', lambda: codec_binding(ctx, prog))
+    guarded(ctx, 'algorithm names', 'M', lambda: alg_names(ctx, prog))
     guarded(ctx, 'verifier dispatch', 'M', lambda: verifier_dispatch(ctx))
     # the document-level entry point hands back what the item verification produced (claims, headers) - C03's obligation, re-used
     import c03
